@@ -34,7 +34,7 @@ STEPS = {
     "inplace-deep-view-unused-middle": "u = +x\nv = u.T\nw = v[1:]\nw *= 2.0\nL = (u * y).sum()",
     "setitem-unused-view-chain": "u = x + 0.0\nv = u[1]\nw = v[::2]\nu[:, :1] = 0.0\nL = (u * u).sum() + w.sum()",
 }
-BETWEEN = ["none", "null_grad", "view", "nonview-op", "inplace", "other-backward", "advanced-index", "copying-reshape", "as-setitem-value"]
+BETWEEN = ["none", "null_grad", "view", "nonview-op", "inplace", "other-backward", "advanced-index", "copying-reshape", "as-setitem-value", "view-shape-assign"]
 M = np.array([True, False, True])
 
 _REC = {"tensors": [], "ops": [], "on": False}
@@ -228,6 +228,16 @@ def run_case(spec, tier):
                         findings.append("leaf entered a non-view op but its (or its view's) old gradient is still readable")
                     t2.clear_graph()
                     del t2, vv
+                elif btw == "view-shape-assign":
+                    # re-shaping a VIEW of the leaf neither uses nor updates the leaf: its gradient (and that of other views) persists
+                    vv, v2 = x[0], x[1:]
+                    g_before = None if x.grad is None else [t.uid for t in terms_of(x.grad)]
+                    vv.shape = (3, 1)
+                    if x.grad is None or [t.uid for t in terms_of(x.grad)] != g_before:
+                        findings.append("assigning .shape to a view of the leaf discarded or changed the leaf's gradient")
+                    if v2.grad is None:
+                        findings.append("assigning .shape to a view of the leaf discarded the gradient of a sibling view")
+                    del vv, v2
                 elif btw == "nonview-op":
                     t2 = x + y
                     if x.grad is not None or y.grad is not None:
@@ -363,6 +373,11 @@ try:
             t2 = x * 1.0
             if x.grad is not None or vv.grad is not None: bad.append("stale after non-view op")
             t2.clear_graph(); del t2, vv
+        elif BTW == "view-shape-assign":
+            vv, v2 = x[0], x[1:]; g0 = x.grad.copy()
+            vv.shape = (3, 1)
+            if x.grad is None or not np.array_equal(x.grad, g0) or v2.grad is None: bad.append("view .shape assignment discarded gradients")
+            del vv, v2
         elif BTW == "nonview-op":
             t2 = x + y
             if x.grad is not None or y.grad is not None: bad.append("stale after non-view op")
